@@ -15,6 +15,9 @@ import PgProofs.C05Paths
 import PgProofs.C05Typed
 import PgProofs.C05Sig
 import PgProofs.C05Handles
+import PgProofs.C05Dna
+import PgProofs.C05Opts
+import PgProofs.C05Auto
 namespace Pg.C05
 
 /-! ## T-SIG: value specs can be rebuilt from what `to_json` emits -/
@@ -89,6 +92,12 @@ theorem C05_sig_F12_counterexample :
 
 /-! ## Codec: object form -/
 
+def envP : ClassEnv := ⟨[("P".toList, [
+  { name := ['x'], kind := .int, noneable := false, default := none, frozen := false },
+  { name := ['k'], kind := .str, noneable := false, default := some (.leaf (.str ['r'])), frozen := true }])]⟩
+
+
+
 /-- ROUND TRIP, object form, for every tree (all shapes, depths, key types, registered classes,
 partial objects): a conforming value none of whose plain shapes is reserved by the encoding loads
 back as *the same tree* — hence symbolically equal, of the same type at every node, with the same
@@ -101,6 +110,39 @@ theorem C05_roundtrip (env : ClassEnv) (hwf : env.WF = true) (ap : Bool) (t : Tr
   unfold fromJson
   rw [rs_tree env t hc he]
   simp only [if_true]
+  exact rt_tree env ap (fun c attrs h1 h2 h3 => construct_ok env hwf ap c attrs h1 h2 h3) t hc he hm
+
+/-- ROUND TRIP UNDER OPTIONS: for every combination of `hide_frozen` and `hide_default_values`
+(passed down to all descendants), `from_json(to_json(v, **options)) = v` for the same class of
+trees: what is hidden — frozen fields, values equal to their field's default, MISSING — is exactly
+what `Object.__init__` restores from the class schema. (`C05_roundtrip` is the instance
+`hide_frozen=True, hide_default_values=False`.) -/
+theorem C05_roundtrip_opts (o : JOpts) (env : ClassEnv) (hwf : env.WF = true) (ap : Bool) (t : Tree)
+    (hc : Conforms env t = true) (he : Encodable false t = true)
+    (hm : ap = true ∨ NoMissing t = true) :
+    fromJson env ap (toJsonO o env t) = .ok t := by
+  unfold fromJson
+  rw [rsO_tree o env t hc he]
+  simp only [if_true]
+  exact rtO_tree o env hwf ap t hc he hm
+
+/-- With `hide_default_values` an attribute at its default really is left out (so the theorem is
+not about an option that does nothing): `P(x=3, k='r')` with default `k='r'` emits `x` only, also
+when `hide_frozen=False`. -/
+theorem C05_opts_hide (o : JOpts) (ho : o.hideDefault = true) :
+    toJsonO o envP (.obj "P".toList [(['x'], .leaf (.int 3)), (['k'], .leaf (.str ['r']))]) =
+      .obj [(.s typeKey, .str "P".toList), (.s ['x'], .int 3)] := by
+  simp [toJsonO, toJsonOA, ClassEnv.fieldsOf, ClassEnv.find, envP, hiddenAttr, findField, isMissing, ho,
+    Tree.beq, atomJ]
+
+/-- `_type` RESOLUTION: loading with `auto_dict=True` gives the same result as the strict loader on
+everything `to_json` produces from conforming values (every class is known, nothing is rewritten) … -/
+theorem C05_auto_dict_roundtrip (env : ClassEnv) (hwf : env.WF = true) (ap : Bool) (t : Tree)
+    (hc : Conforms env t = true) (he : Encodable false t = true)
+    (hm : ap = true ∨ NoMissing t = true) :
+    fromJsonAuto env ap (toJson env t) = .ok t := by
+  unfold fromJsonAuto
+  rw [ad_tree env t hc he]
   exact rt_tree env ap (fun c attrs h1 h2 h3 => construct_ok env hwf ap c attrs h1 h2 h3) t hc he hm
 
 /-- The same statement without the `Encodable` hypothesis … -/
@@ -137,6 +179,20 @@ theorem C05_reserved_type_key :
     fromJson noClasses false (toJson noClasses (.dict [(.s typeKey, .leaf (.str ['x']))])) =
       .error .type := by
   simp [fromJson, toJson, toJsonKV, atomJ, resolveOk, jlookup, noClasses, ClassEnv.find]
+
+/-- … while on a `_type` that names no registered class the strict loader raises TypeError and
+`auto_dict=True` keeps the dict, `_type` renamed to `type_name` (moved to the end). -/
+theorem C05_unknown_type :
+    fromJson noClasses false (.obj [(.s typeKey, .str "nope.Nope".toList), (.s ['x'], .int 1)]) = .error .type ∧
+    fromJsonAuto noClasses false (.obj [(.s typeKey, .str "nope.Nope".toList), (.s ['x'], .int 1)]) =
+      .ok (.dict [(.s ['x'], .leaf (.int 1)), (.s typeNameKey, .leaf (.str "nope.Nope".toList))]) := by
+  constructor
+  · simp [fromJson, resolveOk, jlookup, noClasses, ClassEnv.find]
+  · have e : (['x'] : Str) ≠ typeKey := by decide
+    have e2 : (['x'] : Str) ≠ typeNameKey := by decide
+    have e3 : typeNameKey ≠ typeKey := by decide
+    simp [fromJsonAuto, autoDict, autoDictKV, jlookup, noClasses, ClassEnv.find, dsetK, fromJ, fromJKV, e, e2, e3,
+      e.symm, e2.symm, e3.symm]
 
 /-! ## Codec: string form (`n_:` int keys) over an abstract JSON text layer -/
 
@@ -209,6 +265,102 @@ theorem C05_key_codec_counterexample :
     encKey (.s "n_:5".toList) = encKey (.i 5) ∧ Key.s "n_:5".toList ≠ Key.i 5 := by
   refine ⟨?_, by decide⟩
   simp [encKey, intKeyPrefix, reprInt, natDigits, digitChar]
+
+/-! ## `pg.DNA` (compact JSON form, root metadata) -/
+
+theorem dna_keys_ne :
+    Key.s typeKey ≠ Key.s fmtKey ∧ Key.s typeKey ≠ Key.s valueKey ∧ Key.s typeKey ≠ Key.s metaKey ∧
+    Key.s typeKey ≠ Key.s cloneKey ∧ Key.s fmtKey ≠ Key.s valueKey ∧ Key.s fmtKey ≠ Key.s metaKey ∧
+    Key.s fmtKey ≠ Key.s cloneKey ∧ Key.s valueKey ≠ Key.s metaKey ∧ Key.s valueKey ≠ Key.s cloneKey ∧
+    Key.s metaKey ≠ Key.s cloneKey := by decide
+
+/-- ROUND TRIP for DNA: a DNA in normal form (`viewNorm`: the shape `DNA(<nested value>)` produces
+— C12 — and no child is the empty DNA) whose metadata sits on the root only, loads back from its compact JSON as the same
+DNA with the same metadata and cloneable-key list, provided the nested value and the metadata are
+`Encodable` (e.g. no custom-genome string `'__tuple__'` leading a list). The nested value goes
+through the plain-value codec (`C05_roundtrip`) and `DNA.parse` (`C12_compact_roundtrip`). -/
+theorem C05_dna_roundtrip (ft : FloatText) (hft : ft.Lawful) (env : ClassEnv) (hwf : env.WF = true)
+    (m : MDNA) (hn : Geno.viewNorm m.dna = true) (hne : noEmptyChild m.dna = true)
+    (hcm : m.childMeta = false)
+    (hev : Encodable false (nestTree ft (compact m.dna)) = true)
+    (hmc : Conforms env (.dict m.md) = true) (hme : Encodable false (.dict m.md) = true)
+    (hmm : NoMissing (.dict m.md) = true) :
+    dnaFromJson ft env (dnaToJson ft env m) = .ok m := by
+  obtain ⟨k1, k2, k3, k4, k5, k6, k7, k8, k9, k10⟩ := dna_keys_ne
+  have hv := C05_roundtrip env hwf false _ (nest_plain ft env _).1 hev (.inr (nest_plain ft env _).2)
+  have hmd := C05_roundtrip env hwf false _ hmc hme (.inr hmm)
+  have hparse : (treeNest ft (nestTree ft (compact m.dna))).bind Geno.parse = some m.dna := by
+    rw [treeNest_nestTree ft hft, compact_eq_toCompact m.dna hne]; exact Geno.parse_toCompact m.dna hn
+  obtain ⟨d, md, cl, cm⟩ := m
+  simp only at hn hne hcm hev hmc hme hmm hv hmd hparse
+  subst hcm
+  cases hmd0 : md.isEmpty <;> cases hcl0 : cl.isEmpty
+  all_goals
+    simp only [dnaFromJson, dnaToJson, hmd0, hcl0, Bool.false_eq_true, if_false, if_true, List.append_nil,
+      List.cons_append, List.nil_append, jlookup, k1, k2, k3, k4, k5, k6, k7, k8, k9, k10, k1.symm,
+      k2.symm, k3.symm, k4.symm, k5.symm, k6.symm, k7.symm, k8.symm, k9.symm, k10.symm, if_false, if_true,
+      beq_self_eq_true, Option.getD_some, hv, hmd, hparse, strsOfJ_map]
+  · -- md non-empty, cloneable empty
+    have : cl = [] := List.isEmpty_iff.mp hcl0
+    subst this; rfl
+  · -- md empty, cloneable non-empty
+    have : md = [] := List.isEmpty_iff.mp hmd0
+    subst this; rfl
+  · have h1 : md = [] := List.isEmpty_iff.mp hmd0
+    have h2 : cl = [] := List.isEmpty_iff.mp hcl0
+    subst h1; subst h2; rfl
+
+/-- "Every DNA loads back with all its metadata" (any float text layer) … -/
+def C05_dna_Full (ft : FloatText) : Prop :=
+  ∀ (env : ClassEnv) (m : MDNA), env.WF = true → Geno.viewNorm m.dna = true →
+    dnaFromJson ft env (dnaToJson ft env m) = .ok m
+
+/-- … is false (F200): the compact form carries the metadata of the root node only; a DNA one of
+whose children has metadata (`DNA(1, [DNA(2).set_metadata('k', 5)])`) comes back without it, so
+`pg.eq` and `pg.hash` differ although `==` (which ignores metadata) holds. -/
+theorem C05_dna_counterexample (ft : FloatText) : ¬ C05_dna_Full ft := by
+  intro h
+  have h1 := h noClasses ⟨.mk (.int 1) [.mk (.int 2) []], [], [], true⟩ rfl (by decide)
+  have h2 : dnaFromJson ft noClasses (dnaToJson ft noClasses ⟨.mk (.int 1) [.mk (.int 2) []], [], [], true⟩) =
+      .ok ⟨.mk (.int 1) [.mk (.int 2) []], [], [], false⟩ := by
+    have e1 : typeKey ≠ fmtKey := by decide
+    have e2 : typeKey ≠ valueKey := by decide
+    have e3 : fmtKey ≠ valueKey := by decide
+    have e4 : typeKey ≠ metaKey := by decide
+    have e5 : fmtKey ≠ metaKey := by decide
+    have e6 : valueKey ≠ metaKey := by decide
+    have e7 : typeKey ≠ cloneKey := by decide
+    have e8 : fmtKey ≠ cloneKey := by decide
+    have e9 : valueKey ≠ cloneKey := by decide
+    simp [dnaFromJson, dnaToJson, jlookup, e1, e2, e3, e4, e5, e6, e7, e8, e9,
+      compact, compactL, Geno.toCompact, Geno.toNested, Geno.toNestedList, Geno.nestNode, nestTree, nestTreeL, valAtom,
+      toJson, toJsonL, atomJ, fromJson, resolveOk, resolveOkL, fromJ, fromJL, jisTupleMarker, treeNest,
+      treeNestL, Geno.parse, Geno.parseTuple, Geno.numVal]
+  rw [h2] at h1
+  injection h1 with h1
+  injection h1 with _ _ _ hcm
+  cases hcm
+
+/-- F201: a DNA that is not in normal form does not survive either: `DNA(0, [DNA(None)])` (an empty
+DNA as the only child) is written as `(0, None)` and read back as `DNA(0)`. -/
+theorem C05_dna_not_normal (ft : FloatText) :
+    Geno.viewNorm (.mk (.int 0) [.mk .none []]) = false ∧
+    dnaFromJson ft noClasses (dnaToJson ft noClasses ⟨.mk (.int 0) [.mk .none []], [], [], false⟩) =
+      .ok ⟨.mk (.int 0) [], [], [], false⟩ := by
+  refine ⟨by decide, ?_⟩
+  have e1 : typeKey ≠ fmtKey := by decide
+  have e2 : typeKey ≠ valueKey := by decide
+  have e3 : fmtKey ≠ valueKey := by decide
+  have e4 : typeKey ≠ metaKey := by decide
+  have e5 : fmtKey ≠ metaKey := by decide
+  have e6 : valueKey ≠ metaKey := by decide
+  have e7 : typeKey ≠ cloneKey := by decide
+  have e8 : fmtKey ≠ cloneKey := by decide
+  have e9 : valueKey ≠ cloneKey := by decide
+  simp [dnaFromJson, dnaToJson, jlookup, e1, e2, e3, e4, e5, e6, e7, e8, e9,
+    compact, compactL, Geno.nestNode, nestTree, nestTreeL, valAtom,
+    toJson, toJsonL, atomJ, fromJson, resolveOk, resolveOkL, fromJ, fromJL, jisTupleMarker, treeNest,
+    treeNestL, Geno.parse, Geno.parseTuple, Geno.numVal]
 
 /-! ## Stand-alone typed containers (F11d, F11e) -/
 
@@ -665,6 +817,46 @@ theorem C05_records_roundtrip (sessions : List (List (List Char)))
   obtain ⟨s, hs, hrs⟩ := List.mem_flatten.mp hr
   exact h s hs r hrs
 
+/-- APPEND MODE: a file that is empty or ends in a newline (`Terminated`: what every sequence
+session leaves, by `linesOf_terminated`) keeps its records when a session is appended, gains
+exactly the new records, and is again `Terminated` — so `open_jsonl(p, 'a')` composes. -/
+theorem C05_append_session (c : List Char) (hc : Terminated c) (recs : List (List Char))
+    (h : ∀ r ∈ recs, '\n' ∉ r) :
+    readLines (c ++ linesOf recs) = readLines c ++ recs ∧ Terminated (c ++ linesOf recs) :=
+  ⟨by rw [readLines_append_terminated c _ hc, readLines_linesOf recs h],
+   terminated_append c _ hc (linesOf_terminated recs)⟩
+
+/-- PARTIAL LAST LINE: if the file does not end in a newline (a writer died in the middle of a
+record, or the file was written by `pg.save`), the first appended record is glued to the partial
+line: neither of the two is read back. -/
+theorem C05_partial_line_counterexample :
+    ¬ Terminated "[1, 2".toList ∧
+    readLines ("[1, 2".toList ++ linesOf ["[3]".toList]) = ["[1, 2[3]".toList] := by
+  refine ⟨?_, by decide⟩
+  rintro (h | ⟨c', h⟩)
+  · cases h
+  · have : ("[1, 2".toList).getLast? = (c' ++ ['\n']).getLast? := by rw [h]
+    simp at this
+
+/-- JSONL GLUE: values written with `open_jsonl` — one `to_json_str` text per line — are read back
+as the same values, for any JSON text layer whose output has no raw newline (json.dumps without
+indent escapes them). -/
+theorem C05_jsonl_roundtrip (dumps : JS → List Char) (loads : List Char → Option JS)
+    (hjson : ∀ j, loads (dumps j) = some j) (hnl : ∀ j, '\n' ∉ dumps j)
+    (env : ClassEnv) (hwf : env.WF = true) (ap : Bool) (vs : List Tree)
+    (hv : ∀ t ∈ vs, Conforms env t = true ∧ Encodable true t = true ∧ (ap = true ∨ NoMissing t = true)) :
+    (readLines (linesOf (vs.map (toJsonStr dumps env)))).map (fromJsonStr loads env ap) =
+      vs.map .ok := by
+  rw [readLines_linesOf]
+  · rw [List.map_map]
+    apply List.map_congr_left
+    intro t ht
+    obtain ⟨h1, h2, h3⟩ := hv t ht
+    exact C05_roundtrip_str dumps loads hjson env hwf ap t h1 h2 h3
+  · intro r hr
+    obtain ⟨t, _, rfl⟩ := List.mem_map.mp hr
+    exact hnl _
+
 /-- The same without the newline exclusion … -/
 def C05_records_Full : Prop :=
   ∀ rs : List (List Char), readLines (linesOf rs) = rs
@@ -753,10 +945,6 @@ theorem C05_handles_history :
   decide
 
 /-! ## Non-vacuity -/
-
-def envP : ClassEnv := ⟨[("P".toList, [
-  { name := ['x'], kind := .int, noneable := false, default := none, frozen := false },
-  { name := ['k'], kind := .str, noneable := false, default := some (.leaf (.str ['r'])), frozen := true }])]⟩
 
 def sampleTree : Tree :=
   .dict [(.i 5, .tuple [.leaf .none,
